@@ -34,8 +34,8 @@ PRIORS = {'hex-lower': 'cd' * 20, 'hex-upper': 'CD' * 20,
 
 
 # ------------------------------------------------------------------ known findings
-# none open: D14a-e and D14f (re.ASCII), D14g (URL validates the stored form), D14h (_set_infohash drops _info) are
-# repaired in /repo; their witnesses run as regression cases (corpus/C14, fixed cases of the streams)
+# none open: D14a-e and D14f (re.ASCII), D14g (URL validates the stored form), D14h (_set_infohash drops _info), D14i
+# (torrent() deep-copies the adopted info section) are repaired in /repo; their witnesses run as regression cases (corpus/C14, fixed cases of the streams)
 MATCHERS = {}
 
 
@@ -1365,18 +1365,6 @@ def _run_adopt_chunk(scs):
     return out
 
 
-def m_shared_info(case, observed, finding):
-    """D14i: torrent() hands out the magnet's own `_info` dict: after the caller edited the info section of an earlier
-    result in place, the next torrent() shows exactly that edited info section (instead of the adopted one)."""
-    return bool(case.get('kind') == 'adopt' and isinstance(observed, dict)
-                and observed.get('stage') == 'torrent() after an earlier result was edited by the caller'
-                and observed.get('adopted') and observed.get('edit') in ('top-name', 'top-add', 'top-del', 'nested')
-                and observed.get('info') is not None and observed.get('info') == observed.get('info_of_the_edited_result'))
-
-
-MATCHERS['shared_info'] = m_shared_info
-
-
 def eval_adopt(ctx, drv, scs):
     for i, s in enumerate(scs):
         s.setdefault('seed', ctx.seed * 100019 + i)
@@ -1463,11 +1451,8 @@ def eval_adopt(ctx, drv, scs):
         if ctx.dist['sampled-adopt'] < 2 and s['shape'] != 'single' and s['xl']:
             ctx.dist['sampled-adopt'] += 1
             ctx.sample({'case': case, 'stages': [[n, {k: v for k, v in e.items() if k != 'info'}] for n, e, _ in plan]}, limit=10)
-        tainted = False
         for k, ((name, exp, extra), o) in enumerate(zip(plan, res['obs'])):
             r = next(trep) if extra is not None else None
-            if tainted and name != 'assignment of another hash' and not (extra is not None and not extra['adopted']):
-                continue          # the magnet's metadata was changed through the shared dict (D14i): not judged until dropped
             if 'exc' in o:
                 ctx.violation('an operation of the history raised', case, {'stage': name, 'step': k}, dict(o, stage=name, step=k),
                               finding_matchers=MATCHERS)
@@ -1475,17 +1460,12 @@ def eval_adopt(ctx, drv, scs):
             if any(o.get(f) != v for f, v in exp.items()):
                 got = {f: o.get(f) for f in exp}
                 got.update(stage=name, step=k, **(extra or {}))
-                fid = ctx.violation(
+                ctx.violation(
                     'one magnet, step %d of its history, "%s": the torrent it converts to is not the specified one (with adopted '
                     'metadata: info section exactly the adopted one, infohash = 40-digit form of the magnet\'s hash, validates, '
                     'no fallback hash; without: name/size from dn/xl, infohash given explicitly; trackers/webseeds the magnet\'s)'
                     % (k, name), case, dict(exp, stage=name, step=k), got, finding_matchers=MATCHERS)
-                if fid is None:
-                    break
-                tainted = True
-                continue
-            if extra is not None and not extra['adopted']:
-                tainted = False
+                break
             if r is None or not r['hyp']:
                 continue
             # --- model (torrentOf) against the Lean specification (specTorrent: C14_torrent_after_adoption /
